@@ -59,7 +59,10 @@ class DiagnosticCollector:
         t : float
             The current time
         """
-        ti = t//self.dt
+        # Integer index of the time step containing t (floor of t/dt).
+        # The time is a float accumulated as t += dt so t/dt may lie just
+        # below the integer it stands for, hence the relative tolerance
+        ti = int(np.floor(t/self.dt*(1+1e-9)))
         idx = ti % self.saveStep
 
         self.diagnostics[0, idx] = t
